@@ -27,3 +27,11 @@ func init() {
 	props["C06"] = []Stream{{"txn", genTxn}, {"c06-oracle", genTxnFlavor("c06")}}
 	props["C11"] = []Stream{{"txn", genTxn}, {"c11-oracle", genTxnFlavor("c11")}}
 }
+
+func init() {
+	props["C04"] = []Stream{{"config", genCfg}, {"merge", genMerge}}
+}
+
+func init() {
+	props["C15"] = []Stream{{"name-build", genNameBuild}, {"name-order", genNameOrder}, {"name-parse", genNameParse}, {"name-sanitize", genSanitize}}
+}
